@@ -159,3 +159,42 @@ def collect2(rng):
     }, timeout=500.0)
     spec["collect_n"], spec["collect_rounds"], spec["collect_k"] = n, rounds, k
     return spec, [], dict(policy=rng.choice(["random", "lifo", "fifo"]))
+
+
+def failflow(rng):
+    """start -> `b_work` (T1) raises (always, or until retry k) under stop_after_attempt(r) -> T2 -> `c_next` -> Stop.
+    Handlers: optional scoped `h_scoped` (for b_work and/or c_next) and optional wildcard `h_wild`, max_recoveries 1..3.
+    A handler returns T1 again (the lineage re-enters the failing step and the handler), recovers with a StopEvent, or
+    raises itself (a failing handler must not be routed to any handler)."""
+    layout = rng.choice(["scoped", "wild", "both", "none", "scoped", "both"])
+    mode = rng.choice(["always", "always", "until"])
+    r = rng.choice([1, 2, 3])
+    k = rng.choice([1, 2, 3])
+    pol = rp.retry_policy(wait=rp.wait_fixed(rng.choice([0, 0, 0.25])), stop=rp.stop_after_attempt(r))
+    bscript = [("raise", "value", "boom")] if mode == "always" else [("fail_until", k, "value"), ("return", T2)]
+    cfail = rng.random() < 0.3
+    cscript = [("raise", "runtime", "cboom")] if cfail else [("return", StopEvent)]
+    steps = {
+        "a_start": dict(accepts=[StartEvent], returns=[T1], num_workers=1, script=[("return", T1)]),
+        "b_work": dict(accepts=[T1], returns=[T2], num_workers=rng.choice([1, 2]), policy=pol, script=bscript),
+        "c_next": dict(accepts=[T2], returns=[StopEvent], num_workers=1, script=cscript),
+    }
+    handlers = {}
+
+    def hscript():
+        x = rng.random()
+        if x < 0.5:
+            return [("return", T1)], "reenter"
+        if x < 0.8:
+            return [("return", StopEvent)], "recover"
+        return [("raise", "key", "hboom")], "raise"
+    if layout in ("scoped", "both"):
+        sc, beh = hscript()
+        handlers["h_scoped"] = dict(for_steps=rng.choice([["b_work"], ["b_work", "c_next"], ["c_next"]]),
+                                    max_recoveries=rng.choice([1, 2, 3]), returns=[T1, StopEvent], script=sc, behaviour=beh)
+    if layout in ("wild", "both"):
+        sc, beh = hscript()
+        handlers["h_wild"] = dict(for_steps=None, max_recoveries=rng.choice([1, 2, 3]), returns=[T1, StopEvent],
+                                  script=sc, behaviour=beh)
+    spec = dict(steps=steps, handlers=handlers, disable_validation=rng.random() < 0.5)
+    return spec, [], dict(policy="random")
